@@ -78,6 +78,8 @@ SOps ==
   {[op |-> "dwrite", p |-> "a"], [op |-> "dwrite", p |-> "b"], [op |-> "dremove", p |-> "a"], [op |-> "sopen"], [op |-> "snew"],
    [op |-> "sread", p |-> "a"], [op |-> "sread", p |-> "b"], [op |-> "swrite", p |-> "b"], [op |-> "sremove", p |-> "a"],
    [op |-> "sreserve", p |-> "a"]}
+SPrefix == CASE Pre = "none" -> <<>>
+             [] Pre = "wos"  -> <<[op |-> "dwrite", p |-> "a"], [op |-> "dwrite", p |-> "b"], [op |-> "sopen"]>>
 SFull(x, o) == IF o.op = "dwrite" THEN o @@ [end |-> x.c.flen + Size(o.p)] ELSE o
 
 (* -------------------------------- hl ---------------------------------- *)
@@ -125,7 +127,7 @@ Start ==
     [] Comp = "static" -> S0
     [] Comp = "hl"     -> H0(HKeys, "rw", HProbed)
 Ops == CASE Comp = "dyn" -> DOps [] Comp = "res" -> ROps [] Comp = "static" -> SOps [] Comp = "hl" -> HOps
-Prefix == CASE Comp = "dyn" -> DPrefix [] Comp = "res" -> RPrefix [] Comp = "static" -> <<>> [] Comp = "hl" -> HPrefix
+Prefix == CASE Comp = "dyn" -> DPrefix [] Comp = "res" -> RPrefix [] Comp = "static" -> SPrefix [] Comp = "hl" -> HPrefix
 Enabled(x, o) == IF Comp = "dyn" THEN DEnabled(x, o) ELSE TRUE
 StepOf(x, o) ==
   CASE Comp = "dyn"    -> DCands(x, DFull(x, o))[1].st
